@@ -91,13 +91,15 @@ def filterOut (refs : List Ref) (name : String) : List Ref :=
   | none => refs
   | some (idx, _) => refs.eraseIdx idx
 
-/-- body of the `weight == -1` loop of `buildDesiredHTTPRoute`; `none` = rule dropped. -/
+/-- body of the `weight == -1` loop of `buildDesiredHTTPRoute`; `none` = rule dropped
+    (only a rule whose single backend was the canary Service, i.e. a generated rule). -/
 def finaliseRule (c : Conf) (rule : Rule) : Option Rule :=
+  let hadCanary := (getRef rule.refs c.canary).isSome
   let refs1 := filterOut rule.refs c.canary
   let refs2 := match getRef refs1 c.stable with
     | some (_, s) => setRef refs1 { s with weight := some 1 }
     | none => refs1
-  if refs2.length != 0 then some { rule with refs := refs2 } else none
+  if hadCanary && refs2.length == 0 then none else some { rule with refs := refs2 }
 
 def finaliseRules (c : Conf) (rules : List Rule) : List Rule :=
   rules.filterMap (finaliseRule c)
@@ -129,57 +131,70 @@ def ofU (u : UMatch) : Match :=
 def extend (m : Match) (u : UMatch) : Match :=
   { m with headers := m.headers ++ u.headers, queryParams := m.queryParams ++ u.queryParams }
 
-/-- inner double loop of `buildCanaryHeaderHttpRoutes` *as it is in the unchanged code*:
-    `for j := range canaryRule.Matches { for k := range nonPathMatches { … matches[k] … } }`
-    — indexes `matches` (all user matches) with an index of `nonPathMatches`. -/
-def combineAsIs (base : List Match) (nonPath all : List UMatch) : Option (List Match) :=
-  match (List.range nonPath.length).mapM (fun k => all[k]?) with
-  | none => none                                           -- index out of range
-  | some picked => some (base.flatMap fun m => picked.map (extend m))
+/-- the zero value `HTTPRouteMatch{}` -/
+def emptyMatch : Match := { path := none, headers := [], queryParams := [], method := none }
+
+/-- inner double loop of `buildCanaryHeaderHttpRoutes`:
+    `for j := range baseMatches { for k := range nonPathMatches { … nonPathMatches[k] … } }`
+    where `baseMatches` is the rule's matches, or one empty match if it has none.
+    (`k` ranges over the indices of the slice it indexes: no out-of-range access.) -/
+def combine (base : List Match) (nonPath : List UMatch) : List Match :=
+  let base := if base.isEmpty then [emptyMatch] else base
+  base.flatMap fun m => nonPath.map (extend m)
+
+/-- head of the loop body of `buildCanaryHeaderHttpRoutes`: a rule with a canary ref is
+    a generated rule (no stable ref: dropped, `none`) or a user rule still carrying the
+    canary ref of a weight step (restored: canary ref removed, stable weight 1). -/
+def matchKeep (c : Conf) (rule : Rule) : Option Rule :=
+  match getRef rule.refs c.canary with
+  | none => some rule
+  | some _ =>
+    match getRef rule.refs c.stable with
+    | none => none
+    | some (_, stableRef) =>
+      some { rule with
+        refs := setRef (filterOut rule.refs c.canary) { stableRef with weight := some 1 } }
+
+/-- rest of the loop body for a kept rule that has a stable ref: the generated canary
+    rule, if any (`pm` = the not yet consumed `pathMatches`). -/
+def canaryRuleFor (c : Conf) (nonPath pm : List UMatch) (rule : Rule) (stableRef : Ref) :
+    Option Rule :=
+  let canaryRef := { stableRef with name := c.canary }
+  let newM0 := pm.map ofU
+  if nonPath.isEmpty && newM0.isEmpty then none
+  else some { rule with refs := [canaryRef], mts := newM0 ++ combine rule.mts nonPath }
 
 /-- loop of `buildCanaryHeaderHttpRoutes` over the rules; state = the not yet consumed
-    `pathMatches`; result = (`desired`, `canaries`), `none` = index panic. -/
-def headerLoop (c : Conf) (nonPath all : List UMatch) :
-    List UMatch → List Rule → Option (List Rule × List Rule)
-  | _, [] => some ([], [])
-  | pm, rule :: rest =>
-    if (getRef rule.refs c.canary).isSome then
-      headerLoop c nonPath all pm rest                      -- `continue`: rule dropped
-    else
+    `pathMatches` (reset to nil after the first rule with a stable ref);
+    result = (`desired`, `canaries`). -/
+def headerLoop (c : Conf) (nonPath : List UMatch) :
+    List UMatch → List Rule → List Rule × List Rule
+  | _, [] => ([], [])
+  | pm, rule0 :: rest =>
+    match matchKeep c rule0 with
+    | none => headerLoop c nonPath pm rest                  -- `continue`: rule dropped
+    | some rule =>
       match getRef rule.refs c.stable with
       | none =>
-        match headerLoop c nonPath all pm rest with
-        | none => none
-        | some (d, cs) => some (rule :: d, cs)
+        let (d, cs) := headerLoop c nonPath pm rest
+        (rule :: d, cs)
       | some (_, stableRef) =>
-        let canaryRef := { stableRef with name := c.canary }
-        let newM0 := pm.map ofU
-        -- pathMatches = nil
-        if nonPath.isEmpty && newM0.isEmpty then
-          match headerLoop c nonPath all [] rest with
-          | none => none
-          | some (d, cs) => some (rule :: d, cs)
-        else
-          match combineAsIs rule.mts nonPath all with
-          | none => none
-          | some comb =>
-            let canaryRule : Rule := { rule with refs := [canaryRef], mts := newM0 ++ comb }
-            match headerLoop c nonPath all [] rest with
-            | none => none
-            | some (d, cs) => some (rule :: d, canaryRule :: cs)
+        let (d, cs) := headerLoop c nonPath [] rest         -- pathMatches = nil
+        match canaryRuleFor c nonPath pm rule stableRef with
+        | none => (rule :: d, cs)
+        | some k => (rule :: d, k :: cs)
 
 /-- `buildCanaryHeaderHttpRoutes` -/
-def buildHeader (c : Conf) (rules : List Rule) (ms : List UMatch) : Out :=
+def buildHeader (c : Conf) (rules : List Rule) (ms : List UMatch) : List Rule :=
   let pathMs := ms.filter (fun u => u.path.isSome)
   let nonPath := ms.filter (fun u => u.path.isNone)
-  match headerLoop c nonPath ms pathMs rules with
-  | none => .panic
-  | some (d, cs) => .ok (d ++ cs)
+  let (d, cs) := headerLoop c nonPath pathMs rules
+  d ++ cs
 
 /-- `buildDesiredHTTPRoute` -/
 def buildDesired (c : Conf) (rules : List Rule) (w : Option Int) (ms : List UMatch) : Out :=
   if w == some (-1) then .ok (finaliseRules c rules)
-  else if !ms.isEmpty then buildHeader c rules ms
+  else if !ms.isEmpty then .ok (buildHeader c rules ms)
   else buildWeight c rules w
 
 /-! ### `EnsureRoutes` / `Finalise` on the stored route -/
